@@ -39,4 +39,15 @@ def targets():
             Target('state_update_if_better3', [u3(), uc()], H, replace=['state_update_calls']),
             # the 2-argument overload passes the state's own m_gx as gx (aliasing): the 3-argument body is inlined
             Target('state_update_if_better2', [u2(), u3(), uc()], H, replace=['state_update_calls']),
-            Target('state_value_test', [fn('state_value_test', 'value_test')], H)]
+            Target('state_value_test', [fn('state_value_test', 'value_test')], H), minimize_target()]
+
+
+def minimize_target():
+    """solver_t::minimize over the shared solver model (specs/solver/solver.h)"""
+    import common
+    kw = dict(common.COMMON)
+    kw['members'] = [(r'^size\|nano::function_t', 'nv_fn_size'), (r'^size\|.*tensor', 'nv_x0_size'),
+                     (r'^clear_statistics\|nano::function_t', 'nv_fn_clear_statistics'),
+                     (r'^do_minimize\|', 'nv_do_minimize')] + list(common.MEMBERS)
+    f = Fn('solver_minimize', 'src/solver.cpp', 'minimize', flt='solver_t::minimize', self_struct='struct nv_solver', **kw)
+    return Target('solver_minimize', [f], 'specs/C02/minimize.h')
